@@ -481,7 +481,7 @@ VARIANTS = [
     Variant("multi-run-forgets-preserve", "FIRE", "main", "    source = fixes.delete_unused_functions_and_classes(source, preserve=preserve)", "    source = fixes.delete_unused_functions_and_classes(source)", "R8.1"),
     Variant("format-code-forgets-preserve", "FIRE", "main", "        source = fixes.align_variable_names_with_convention(source, preserve=preserve)", "        source = fixes.align_variable_names_with_convention(source)", "R8.1"),
     Variant("worker-gets-empty-preserve", "FIRE", "main", "                    (filename, filename_preserve[filename], safe)", "                    (filename, frozenset(), safe)", "R8.1"),
-    Variant("fix-variable-names-ignores-preserve", "FIRE", "fixes", "            if node.id != substitute and node.id not in preserve:", "            if node.id != substitute:", "R8.2"),
+    Variant("fix-variable-names-ignores-preserve", "FIRE", "fixes", "            if node.id != substitute and node.id not in preserve | names_left_alone:", "            if node.id != substitute and node.id not in names_left_alone:", "R8.2"),
     Variant("attribute-names-only-for-imports", "FIRE", "main",
             "            names.append(node.attr)\n            if isinstance(node.value, ast.Name) and node.value.id in imported_names:\n                names.append(node.value.id)",
             "            if isinstance(node.value, ast.Name) and node.value.id in imported_names:\n                names.append(node.attr)\n                names.append(node.value.id)", "R8.3"),
